@@ -195,6 +195,20 @@ def extension_pairs(rng, side):  # pylint: disable=too-many-locals,too-many-stat
         padding = pick_len(rng, 0, 600)
         add(ext.TlsExtensionPadding(padding), etype.PADDING, ref.ext_padding(padding))
     else:
+        # RFC 6962 3.3: signed certificate timestamps of known logs; millisecond instants over the whole 1970..2106 range
+        import cryptoparser.common.x509 as x509  # pylint: disable=import-outside-toplevel
+        logs = list(x509.CertificateTransparencyLog)
+        scts_lib, scts = [], []
+        for _ in range(rng.choice([1, 1, 2, 3])):
+            log_id = bytes(rng.choice(logs).value.log_id.value)
+            millis = rng.choice([0, 1, 2 ** 32 - 1, 2 ** 32, 2 ** 32 + 1, 1700000000123, 2 ** 41 - 1, (2 ** 32 - 1) * 1000 + 999,
+                                 rng.randrange(2 ** 32 * 1000)])     # seconds fit 32 bits: 1970..2106
+            moment = datetime.datetime.fromtimestamp(millis // 1000, datetime.timezone.utc) + datetime.timedelta(milliseconds=millis % 1000)
+            signature_algorithm = rng.choice(list(alg.TlsSignatureAndHashAlgorithm))
+            ct_extensions, signature = rbytes(rng, rng.choice([0, 0, 3])), rbytes(rng, pick_len(rng, 0, 80))
+            scts_lib.append(x509.SignedCertificateTimestamp(x509.CtVersion.V1, log_id, moment, ct_extensions, signature_algorithm, signature))
+            scts.append(ref.serialized_sct(0, log_id, millis, ct_extensions, signature_algorithm.value.code, signature))
+        add(ext.TlsExtensionSignedCertificateTimestampServer(scts_lib), etype.SIGNED_CERTIFICATE_TIMESTAMP, ref.ext_sct_list(scts))
         member_version = rng.choice(list(dver.TlsVersion))
         add(ext.TlsExtensionSupportedVersionsServer(version.TlsProtocolVersion(member_version)), etype.SUPPORTED_VERSIONS,
             ref.ext_supported_versions_server(member_version.value.code))
